@@ -323,8 +323,15 @@ func (e *fnEnc) execInstr(b *ssa.BasicBlock, ins ssa.Instruction, st *state) {
 	case *ssa.DebugRef:
 		return
 	case *ssa.Alloc:
-		r := e.alloc(st, v.Name())
 		et := v.Type().Underlying().(*types.Pointer).Elem()
+		if localCell(v) {
+			if s := e.sortOf(et); s.kind != skStruct && s.kind != skArray && s.kind != skTuple {
+				st.locals[v] = e.V.ST.zeroValue(s)
+				e.vals[v] = "LOCAL-CELL"
+				return
+			}
+		}
+		r := e.alloc(st, v.Name())
 		e.zeroInit(st, r, et)
 		e.vals[v] = r
 	case *ssa.BinOp:
@@ -361,6 +368,16 @@ func (e *fnEnc) execInstr(b *ssa.BasicBlock, ins ssa.Instruction, st *state) {
 	case *ssa.Slice:
 		e.sliceOp(st, v)
 	case *ssa.Store:
+		if a, ok := v.Addr.(*ssa.Alloc); ok {
+			if _, isLocal := st.locals[a]; isLocal {
+				val := e.val(v.Val)
+				if len(val) > 60 {
+					val = e.define("locv", e.sortOf(v.Val.Type()), val)
+				}
+				st.locals[a] = val
+				return
+			}
+		}
 		addr := e.val(v.Addr)
 		e.oblige(st, "nil", "store", v.Pos(), not(eq(addr, "null")))
 		e.frameCheck(st, addr, v.Pos(), "store")
@@ -389,7 +406,10 @@ func (e *fnEnc) execInstr(b *ssa.BasicBlock, ins ssa.Instruction, st *state) {
 	case *ssa.Select:
 		e.selectInstr(st, v)
 	case *ssa.Send:
-		// abstracted: no effect on the modelled state
+		// abstracted: only the ghost log of sent pointers
+		if e.sortOf(v.X.Type()).kind == skRef {
+			e.logSend(st, e.val(v.Chan), e.val(v.X), "true")
+		}
 	case *ssa.SliceToArrayPointer:
 		sl := e.val(v.X)
 		n := v.Type().Underlying().(*types.Pointer).Elem().Underlying().(*types.Array).Len()
@@ -643,11 +663,22 @@ func isNilConst(v ssa.Value) bool {
 
 func (e *fnEnc) unop(st *state, v *ssa.UnOp) {
 	x := ""
-	if _, isWin := e.winOf[v.X]; !isWin {
+	_, isWin := e.winOf[v.X]
+	isLoc := false
+	if a, ok := v.X.(*ssa.Alloc); ok {
+		_, isLoc = st.locals[a]
+	}
+	if !isWin && !isLoc {
 		x = e.val(v.X)
 	}
 	switch v.Op {
 	case token.MUL: // load
+		if a, ok := v.X.(*ssa.Alloc); ok {
+			if lv, isLocal := st.locals[a]; isLocal {
+				e.vals[v] = lv
+				return
+			}
+		}
 		if cv, ok := e.constCell(v.X); ok {
 			e.vals[v] = cv
 			return
@@ -1260,4 +1291,45 @@ func freeVarWriteOnce(fv *ssa.FreeVar) bool {
 		}
 	}
 	return found
+}
+
+// localCell: an Alloc whose address is used only for loads and stores in its own function
+// and for bindings of function literals that only READ the variable. No callee can write
+// such a cell, so it is tracked as a local value (not in the heap) and survives havocs.
+var localCellCache = map[*ssa.Alloc]bool{}
+
+func localCell(a *ssa.Alloc) bool {
+	if v, ok := localCellCache[a]; ok {
+		return v
+	}
+	ok := true
+	refs := a.Referrers()
+	if refs == nil {
+		ok = false
+	} else {
+		for _, r := range *refs {
+			switch x := r.(type) {
+			case *ssa.Store:
+				if x.Addr != ssa.Value(a) || x.Val == ssa.Value(a) {
+					ok = false
+				}
+			case *ssa.UnOp:
+				if x.Op != token.MUL {
+					ok = false
+				}
+			case *ssa.DebugRef:
+			case *ssa.MakeClosure:
+				fn := x.Fn.(*ssa.Function)
+				for i, b := range x.Bindings {
+					if b == ssa.Value(a) && !fvOnlyRead(fn.FreeVars[i], 0) {
+						ok = false
+					}
+				}
+			default:
+				ok = false
+			}
+		}
+	}
+	localCellCache[a] = ok
+	return ok
 }
